@@ -85,7 +85,7 @@ def load_known():
 
 def match_known(known, prop, hname, cfg, label):
     for k in known:
-        if k.get("status", "open") != "open" or k["property"] != prop:
+        if k.get("status", "open") != "open" or prop not in k.get("properties", [k["property"]]):
             continue
         if not any(hname == h or hname.startswith(h + ".") or hname.startswith(h) for h in k["harness"]):
             continue
